@@ -245,12 +245,22 @@ impl Expect {
 pub fn data_num_eq(a: &Data, b: &Data) -> bool {
     use calamine::DataType;
     match (a, b) {
-        (Data::DateTime(x), Data::DateTime(y)) => x == y,
+        (Data::DateTime(x), Data::DateTime(y)) => x == y || (x.as_f64().is_nan() && format!("{:?}", x) == format!("{:?}", y)),
         (Data::DateTime(_), _) | (_, Data::DateTime(_)) => false,
         _ => match (a.is_int() || a.is_float(), b.is_int() || b.is_float()) {
-            (true, true) => a.as_f64() == b.as_f64(),
+            // (a NaN read back as the same NaN is equal: compare the bits)
+            (true, true) => a.as_f64() == b.as_f64() || a.as_f64().map(f64::to_bits) == b.as_f64().map(f64::to_bits),
             _ => a == b,
         },
+    }
+}
+
+/// equality of two cell values where a NaN equals the same NaN (bit for bit)
+pub fn data_eq(a: &Data, b: &Data) -> bool {
+    match (a, b) {
+        (Data::Float(x), Data::Float(y)) => x == y || x.to_bits() == y.to_bits(),
+        (Data::DateTime(x), Data::DateTime(y)) => x == y || (x.as_f64().is_nan() && format!("{:?}", x) == format!("{:?}", y)),
+        _ => a == b,
     }
 }
 
@@ -261,7 +271,7 @@ pub fn compare_range(
     exp: &Expect,
     num_eq: bool,
 ) -> Option<(String, String)> {
-    let eq = |a: &Data, b: &Data| if num_eq { data_num_eq(a, b) } else { a == b };
+    let eq = |a: &Data, b: &Data| if num_eq { data_num_eq(a, b) } else { data_eq(a, b) };
     match (exp.bounds(), got.start(), got.end()) {
         (None, None, None) => return None,
         (None, s, e) => {
